@@ -48,7 +48,7 @@ CONN_BASES = {
     "echo": ["config 1 1 65536", "hook msg send g:11:300 piece", "establish", "peerWrite g:1:200", "iter", "iter",
              "peerWrite g:3:100", "act L send g:4:100 piece", "iter", "act F send g:5:50 ptr", "iter", "iter"],
     # bulk send with a backlog: the kernel takes 1000 bytes, the rest drains later; sends from two threads pile up
-    "bulk": ["config 1 1 4096", "establish", "script write 1000", "act L send g:7:70000 piece", "act F send g:8:5000 buf",
+    "bulk": ["config 1 1 4096", "establish", "script write 1000", "act L send g:7:9000 piece", "act F send g:8:3000 buf",
              "act L send g:9:10 piece", "iter", "iter", "act L send g:10:10 piece", "iter", "iter"],
     # half-close with a backlog: FIN only after the data; the peer answers and closes
     "halfclose": ["config 1 1 65536", "establish", "script write 10", "act L send g:1:5000 piece", "act L shutdown",
@@ -596,9 +596,15 @@ class Prop:
         """differential run + both oracles (C12's complete one unless polls are interrupted, which it does not know)"""
         case = Case("client", lines, origin, meta={"argv": []})
         impl, err = ctx.run_impl(exe, case, timeout=120)
-        fails = client_fault_oracle(lines, impl)
-        if not fails and not eintr:
-            fails = c12.oracle(c12.Trace(lines, impl))
+        # the C11 oracle speaks about connect-retry histories (script / connect / advance / iter only)
+        grid_form = all(l.split()[0] in ("script", "connect", "advance", "iter") for l in lines)
+
+        def judge(ls, blocks):
+            f = client_fault_oracle(ls, blocks) if grid_form else []
+            if not f and not eintr:
+                f = c12.oracle(c12.Trace(ls, blocks))
+            return f
+        fails = judge(lines, impl)
         mismatch = None
         margs = ["ndebug"] if "ndebug" in flavour else []
         if ctx.model_ok:
@@ -622,7 +628,7 @@ class Prop:
 
             def still(ls):
                 b, _ = ctx.run_impl(exe, Case("client", ls, meta={"argv": []}), timeout=60)
-                f = client_fault_oracle(ls, b) or ([] if eintr else c12.oracle(c12.Trace(ls, b)))
+                f = judge(ls, b)
                 return bool(f) and f[0][0] == kind
             small = ddmin(lines, still, budget=80) if origin != "replay" else lines
             ctx.oracle_failures.append((Case("client", [head] + small, origin), kind, fails[0][1] + " [client/%s]" % flavour))
